@@ -75,6 +75,34 @@ theorem ksum_hermitian (iRvec : List Vec3) (hsym : (iRvec.map vneg).Perm iRvec)
   intro R _
   simp only [Function.comp, star_mul', hχ R, hY R a b]
 
+/-! ### `_rotate` : U† X U -/
+
+omit [StarRing K] in
+theorem sumK_swap {α β} (l₁ : List α) (l₂ : List β) (f : α → β → K) :
+    sumK (l₁.map fun a => sumK (l₂.map fun b => f a b)) = sumK (l₂.map fun b => sumK (l₁.map fun a => f a b)) := by
+  induction l₁ with
+  | nil =>
+    simp only [List.map_nil, sumK_nil]
+    exact (sumK_map_zero l₂).symm
+  | cons a l ih =>
+    simp only [List.map_cons, sumK_cons, ih]
+    rw [← sumK_map_add]
+
+/-- rotating a Hermitian matrix into ANY basis `U` (unitary or not) gives a Hermitian matrix -/
+theorem rotate_hermitian (n : Nat) (U X : Nat → Nat → K) (hX : ∀ b c, X c b = star (X b c)) (a d : Nat) :
+    rotate n star U X d a = star (rotate n star U X a d) := by
+  unfold rotate
+  rw [star_sumK, List.map_map]
+  rw [sumK_swap]
+  apply sumK_map_congr
+  intro b _
+  simp only [Function.comp]
+  rw [star_sumK, List.map_map]
+  apply sumK_map_congr
+  intro c _
+  simp only [Function.comp, star_mul', star_star, ← hX b c]
+  ring
+
 /-! ### the `hermitian=True` option -/
 
 theorem star_half : star ((2 : K)⁻¹) = (2 : K)⁻¹ := by
